@@ -67,6 +67,11 @@ def search(ctx, broken, res0):
             sk.gen_cases(ctx, se.NAMES, ctx.pick(10, 25)):
         res.evaluations += 1
         so.c07(res, c, ctx.rng)
+        # databases the generators never produce but the schemes accept: a posting list that names an identifier twice
+        c2 = so.with_repeated_identifier(c)
+        if c2 is not None:
+            res.evaluations += 1
+            so.c07_inputs_only(res, c2, "repeated identifier in a list")
     return res
 
 
@@ -75,4 +80,5 @@ def replay(ctx, rp):
     c = sk.case_from_replay({"input": inp.get("first", inp)})
     r = Result()
     so.c07(r, c, ctx.rng)
+    so.c07_inputs_only(r, c, "replay")
     return {"holds": not r.violations, "observed": [v["what"] for v in r.violations][:3]}
